@@ -19,11 +19,13 @@ pub mod c14;
 pub mod c15;
 pub mod c16;
 pub mod c17;
+pub mod c18;
 pub mod c19;
+pub mod c20;
 pub mod common;
 
 pub fn all() -> Vec<Arc<dyn Prop>> {
-    vec![Arc::new(c01::C01), Arc::new(c02::C02), Arc::new(c03::C03), Arc::new(c04::C04), Arc::new(c05::C05), Arc::new(c05::C06), Arc::new(c07::C07), Arc::new(c08::C08), Arc::new(c09::C09), Arc::new(c10::C10), Arc::new(c11::C11), Arc::new(c12::C12), Arc::new(c13::C13), Arc::new(c14::C14), Arc::new(c15::C15), Arc::new(c16::C16), Arc::new(c17::C17), Arc::new(c19::C19)]
+    vec![Arc::new(c01::C01), Arc::new(c02::C02), Arc::new(c03::C03), Arc::new(c04::C04), Arc::new(c05::C05), Arc::new(c05::C06), Arc::new(c07::C07), Arc::new(c08::C08), Arc::new(c09::C09), Arc::new(c10::C10), Arc::new(c11::C11), Arc::new(c12::C12), Arc::new(c13::C13), Arc::new(c14::C14), Arc::new(c15::C15), Arc::new(c16::C16), Arc::new(c17::C17), Arc::new(c18::C18), Arc::new(c19::C19), Arc::new(c20::C20)]
 }
 
 pub fn find(id: &str) -> Option<Arc<dyn Prop>> {
@@ -34,6 +36,7 @@ pub fn find(id: &str) -> Option<Arc<dyn Prop>> {
 pub fn child_main(args: &[String]) -> i32 {
     match args.first().map(|s| s.as_str()) {
         Some("c03") => c03::child(&args[1..]),
+        Some("busyrecv") => c05::child_busy_recv(&args[1..]),
         _ => {
             eprintln!("unknown child kind");
             2
